@@ -92,6 +92,9 @@ def classify_offset(s, nbytes):
 def gen_case(rnd, idx):
     c = dict(idx=idx)
     lines = [l.text for l in progs.gen_program(rnd, size=rnd.randrange(2, 14), fillers=False)]
+    if rnd.random() < 0.12:
+        # a program without a single label: -l still writes its (empty) file
+        lines = ['    addi x5, x5, %d' % rnd.randrange(1, 100), '    dw 0x%x' % rnd.randrange(1 << 32), '    add x6, x7, x8'][:rnd.randrange(1, 4)]
     files = {}
     dirs = ['build', 'inc', 'other']
     opts = dict(compress=rnd.random() < 0.5, verbose=rnd.random() < 0.1, incs=[], defs=False)
@@ -107,6 +110,12 @@ def gen_case(rnd, idx):
         opts['incs'] = [rnd.choice(['inc'] * 5 + [ROOT + '/inc'] * 3 + ['./inc', 'inc/'])]
         if rnd.random() < 0.2:
             opts['incs'] = ['other'] + opts['incs']
+        elif rnd.random() < 0.3:
+            # the same file name in two -i directories: the command line's order decides, whatever the names sort like
+            first = rnd.choice(['zinc', 'other', 'Inc2'])
+            dirs.append(first)
+            files[first + '/part.asm'] = ['PART_ENTRY:', '    addi a0, a0, 2', '    addi a0, a0, 3', '    ret', 'PART_K = 0x66']
+            opts['incs'] = [first] + opts['incs'] if rnd.random() < 0.7 else opts['incs'] + [first]
     elif r < 0.5:
         opts['defs'] = True
         lines.insert(0, 'include GD32VF103.asm')
